@@ -4,7 +4,7 @@
    Domain: an access type of 1, 2, 4 or 8 bytes (access size code 1 byte, 2 word, 3 dword, 4 qword; register width = the
    type's width in bits); an I/O port address is 16 bits, a memory address 64 bits. *)
 From Coq Require Import NArith List Bool.
-From ACPI Require Import Lib.Bytes Lib.Sx Spec.Layout.
+From ACPI Require Import Lib.Bytes Lib.Sx Spec.Layout Spec.AmlCoreS Spec.RhctS.
 Import ListNotations.
 Open Scope N_scope.
 
@@ -25,6 +25,12 @@ Definition misc_ref (c : sx) : option (list ev) :=
   | SL [SA 3; SA 1] => Some [EvNum 36]
   | SL [SA 3; SA 2] => Some [EvNum 64]
   | SL [SA 3; SA 3] => Some [EvNum 100]
+  (* a field name is a NameSeg (ACPI 6.5 20.2.2): exactly its four characters, verbatim *)
+  | SL [SA 4; SL l] => match sx_nums l with
+                       | Some b => if is_nameseg b then Some [EvBytes b] else None
+                       | None => None end
+  (* the RHCT ISA string node, as the RHCT reference lays it out (Spec/RhctS.v) *)
+  | SL [SA 5; SL l] => option_map (fun e => [EvBytes e]) (rhct_entry_ref ([], 0) (SL [SA 1; SL l]))
   | _ => None
   end.
 
